@@ -319,7 +319,7 @@ def run_case(case, ctx):
     _TL.driver_case = {"own": g, "idx": case["idx"]}
     try:
         own(g, rs, ctx)
-    except (np.linalg.LinAlgError, InjectedFault):
+    except (np.linalg.LinAlgError, InjectedFault, InjectedInterrupt):
         pass
     except ValueError as e:
         if "read-only" in str(e):
@@ -332,6 +332,10 @@ def run_case(case, ctx):
 
 class InjectedFault(Exception):
     pass
+
+
+class InjectedInterrupt(BaseException):
+    """an early exit that is not an Exception (KeyboardInterrupt-like): clean-up written as `except Exception` does not see it"""
 
 
 def argkind(rs, a, ctx):
@@ -439,6 +443,7 @@ def own(g, rs, ctx):
         return
     if g == "own_fault":
         ctx.count("own/fault_injected")
+        fault_cls = InjectedFault if rs.rand() < 0.7 else InjectedInterrupt
         mode = gen.choice(rs, ["callback", "failpoint", "failpoint"])
         if mode == "callback":
             k = int(rs.randint(0, 4))
@@ -447,7 +452,7 @@ def own(g, rs, ctx):
             def cb(*a, **kw):
                 cnt[0] += 1
                 if cnt[0] > k:
-                    raise InjectedFault("callback raises at call %d" % cnt[0])
+                    raise fault_cls("callback raises at call %d" % cnt[0])
             which = gen.choice(rs, ["parafac", "tr_als", "hals_nnls"])
             _TL.last_entry = which
             if which == "parafac":
@@ -469,7 +474,7 @@ def own(g, rs, ctx):
         def failing(*a, **kw):
             cnt[0] += 1
             if cnt[0] == nth:
-                raise InjectedFault("%s failpoint at call %d" % (name, nth))
+                raise fault_cls("%s failpoint at call %d" % (name, nth))
             return orig(*a, **kw)
         setattr(inst, name, failing)
         which = gen.choice(rs, ["parafac", "nn_parafac_hals", "tucker", "constrained", "parafac2", "nn_tucker_hals", "tensor_train"])
